@@ -48,6 +48,7 @@ FS_QUICK = [
     FSCfg("NTR", "greater", "stateful", "f64"),
     FSCfg("TR", "less", "tless", "std", "std"),
     FSCfg("NTR", "stateful", "greater", "v", "realloc"),
+    FSCfg("TR", "less", "greater", "s4", "basic", std="c++20"),  # operator<=>, erase_if
 ]
 FS_THOROUGH = [
     FSCfg("TR", "coarse", "less", "s2", "basic"),
@@ -112,6 +113,7 @@ SS_HIST_QUICK = [
     SSCfg("NTR", 4, "greater", 2, "less", "flat", "basic"),
     SSCfg("TR", 8, "less", 4, "coarse", "flat", "realloc"),
     SSCfg("TC12", 4, "stateful", 8, "stateful", "flat", "std"),
+    SSCfg("NTR", 3, "less", 5, "greater", "set", "exact", std="c++20"),  # operator<=>, erase_if
 ]
 SS_HIST_THOROUGH = [
     SSCfg("NTR", 8, "coarse", 4, "greater", "flat"),
